@@ -55,6 +55,7 @@ package libinjection
 //@ func (*h5State).stateBogusComment
 //@   requires wfH0(h)
 //@   modifies h.pos, h.state, h.tokenStart, h.tokenLen, h.tokenType
+//@   ensures  @mono old(h.pos) <= h.pos
 //@   rank     1
 //@   ensures  result
 //@   ensures  [C17] @first_terminator postBogus(h, old(h.pos))
@@ -69,6 +70,7 @@ package libinjection
 //@ func (*h5State).stateBogusComment2
 //@   requires wfH0(h)
 //@   modifies h.pos, h.state, h.tokenStart, h.tokenLen, h.tokenType
+//@   ensures  @mono old(h.pos) <= h.pos
 //@   rank     1
 //@   ensures  result
 //@   ensures  [C17] @first_terminator postBogus2(h, old(h.pos))
@@ -86,9 +88,306 @@ package libinjection
 //@ func (*h5State).stateCData
 //@   requires wfH0(h)
 //@   modifies h.pos, h.state, h.tokenStart, h.tokenLen, h.tokenType
+//@   ensures  @mono old(h.pos) <= h.pos
 //@   rank     1
 //@   ensures  result
 //@   ensures  [C17] @first_terminator postCData(h, old(h.pos))
 //@   loop 1 invariant old(h.pos) <= pos && pos <= h.len && unchangedH(h)
 //@   loop 1 invariant [C17] forall k in [old(h.pos), pos): !cdEndAt(h, k)
 //@   loop 1 decreases h.len - pos
+
+// ---- stream potential: every emitted token lies at or after lowB(old), ends at or before
+// lowB(new), and strictly increases potQ; potQ <= len+1 bounds the number of tokens.
+//@ spec streamOK(h *h5State, lo int) bool = tokOK(h) && lo <= tokOff(h) && tokOff(h) + h.tokenLen <= lowB(h) && lowB(h) <= h.len
+//@ spec midState(h *h5State) bool = h.state != h.stateTagNameClose && !quoteState(h)
+//@ spec wfM(h *h5State) bool = wfH0(h) && knownState(h)
+
+// ---- <!-- .. --> / --!> (NULs tolerated after the first dash)
+//@ spec postComment(h *h5State, p int) bool = wfH0(h) && tokOK(h) && tokOff(h) == p && h.tokenType == html5TypeTagComment &&
+//@      (h.state == h.stateEOF || h.state == h.stateData) &&
+//@      (h.state == h.stateEOF  ==> h.tokenLen == h.len - p && h.pos == p) &&
+//@      (h.state == h.stateData ==> h.pos >= p + h.tokenLen + 3 && h.pos <= h.len && h.s[p + h.tokenLen] == '-' &&
+//@           (forall j in [p + h.tokenLen + 1, h.pos - 2): h.s[j] == 0) &&
+//@           (h.s[h.pos - 2] == '-' || h.s[h.pos - 2] == '!') && h.s[h.pos - 1] == '>')
+//@ func (*h5State).stateComment
+//@   requires wfM(h)
+//@   modifies h.pos, h.state, h.tokenStart, h.tokenLen, h.tokenType
+//@   ensures  @mono old(h.pos) <= h.pos
+//@   rank     1
+//@   ensures  result && wfH(h) && h.isClose == old(h.isClose)
+//@   ensures  [C17] @terminator postComment(h, old(h.pos))
+//@   loop 1 invariant old(h.pos) <= pos && pos <= h.len && unchangedH(h)
+//@   loop 1 decreases h.len - pos
+//@   loop 2 invariant 1 <= offset && pos + index + offset <= h.len && unchangedH(h)
+//@   loop 2 invariant [C17] forall j in [pos + index + 1, pos + index + offset): h.s[j] == 0
+//@   loop 2 decreases h.len - (pos + index + offset)
+
+//@ spec postDoctype(h *h5State, p int) bool = wfH0(h) && tokOK(h) && tokOff(h) == p && h.tokenType == html5TypeDocType &&
+//@      (h.state == h.stateEOF || h.state == h.stateData) &&
+//@      (forall k in [p, p + h.tokenLen): h.s[k] != '>') &&
+//@      (h.state == h.stateEOF  ==> h.tokenLen == h.len - p && h.pos == p) &&
+//@      (h.state == h.stateData ==> p + h.tokenLen < h.len && h.s[p + h.tokenLen] == '>' && h.pos == p + h.tokenLen + 1)
+//@ func (*h5State).stateDoctype
+//@   requires wfM(h)
+//@   modifies h.pos, h.state, h.tokenStart, h.tokenLen, h.tokenType
+//@   ensures  @mono old(h.pos) <= h.pos
+//@   rank     1
+//@   ensures  result && wfH(h) && h.isClose == old(h.isClose)
+//@   ensures  [C17] @first_terminator postDoctype(h, old(h.pos))
+
+//@ spec doctypeAt(h *h5State, p int) bool = p + 7 <= h.len && up(h.s[p]) == 'D' && up(h.s[p+1]) == 'O' && up(h.s[p+2]) == 'C' &&
+//@      up(h.s[p+3]) == 'T' && up(h.s[p+4]) == 'Y' && up(h.s[p+5]) == 'P' && up(h.s[p+6]) == 'E'
+//@ spec cdataOpenAt(h *h5State, p int) bool = p + 7 <= h.len && h.s[p:p+7] == "[CDATA["
+//@ func (*h5State).stateMarkupDeclarationOpen
+//@   requires wfM(h)
+//@   modifies h.pos, h.state, h.tokenStart, h.tokenLen, h.tokenType
+//@   ensures  @mono old(h.pos) <= h.pos
+//@   rank     8
+//@   ensures  result && wfH(h) && h.isClose == old(h.isClose) && (h.state == h.stateEOF || h.state == h.stateData)
+//@   ensures  [C17] @stream streamOK(h, old(h.pos)) && potQ(h) >= old(h.pos) + 1
+//@   ensures  [C17] @doctype doctypeAt(h, old(h.pos)) ==> postDoctype(h, old(h.pos))
+//@   ensures  [C17] @cdata   cdataOpenAt(h, old(h.pos)) ==> postCData(h, old(h.pos) + 7)
+//@   ensures  [C17] @comment old(h.pos) + 2 <= h.len && h.s[old(h.pos)] == '-' && h.s[old(h.pos)+1] == '-' ==> postComment(h, old(h.pos) + 2)
+//@   ensures  [C17] @bogus   (old(h.pos) >= h.len || (h.s[old(h.pos)] < 128 && !(h.s[old(h.pos)] in {'d', 'D', '[', '-'}))) ==> postBogus(h, old(h.pos))
+
+//@ func (*h5State).stateSelfClosingStartTag
+//@   requires wfH(h) && h.pos >= 1 && midState(h)
+//@   modifies h.pos, h.state, h.tokenStart, h.tokenLen, h.tokenType
+//@   ensures  @mono old(h.pos) <= h.pos
+//@   rank     (h.pos < h.len && h.s[h.pos] != '>') ? 5 : 1
+//@   ensures  wfH(h) && h.isClose == old(h.isClose) && old(h.pos) <= h.pos
+//@   ensures  !result ==> h.pos == h.len && h.state == old(h.state)
+//@   ensures  [C17] @stream result ==> streamOK(h, old(h.pos) - 1) && potQ(h) >= old(h.pos) + 1
+//@   ensures  [C17] @selfclose old(h.pos) < h.len && h.s[old(h.pos)] == '>' ==> result && h.tokenType == html5TypeTagNameSelfClose &&
+//@                 tokOff(h) == old(h.pos) - 1 && h.tokenLen == 2 && h.pos == old(h.pos) + 1 && h.state == h.stateData
+
+//@ func (*h5State).stateTagNameClose
+//@   requires wfM(h) && h.pos < h.len
+//@   modifies h.pos, h.state, h.tokenStart, h.tokenLen, h.tokenType, h.isClose
+//@   ensures  @mono old(h.pos) <= h.pos
+//@   rank     1
+//@   ensures  result && wfH(h) && !h.isClose
+//@   ensures  [C17] @token h.tokenType == html5TypeTagNameClose && tokOK(h) && tokOff(h) == old(h.pos) && h.tokenLen == 1 && h.pos == old(h.pos) + 1 &&
+//@                 h.state == (h.pos < h.len ? h.stateData : h.stateEOF)
+
+// ---- tag name: ends at the first white / '/' / '>' (NULs are part of the name)
+//@ spec tagNameEnd(c int) bool = isWS(c) || c == '/' || c == '>'
+//@ func (*h5State).stateTagName
+//@   requires wfM(h)
+//@   modifies h.pos, h.state, h.tokenStart, h.tokenLen, h.tokenType, h.isClose
+//@   ensures  @mono old(h.pos) <= h.pos
+//@   rank     1
+//@   ensures  result && wfH(h)
+//@   ensures  [C17] @stream streamOK(h, old(h.pos)) && potQ(h) >= old(h.pos) + 1 && tokOff(h) == old(h.pos)
+//@   ensures  [C17] @span forall k in [old(h.pos), old(h.pos) + h.tokenLen): !tagNameEnd(h.s[k])
+//@   ensures  [C17] @end (old(h.pos) + h.tokenLen < h.len ==> tagNameEnd(h.s[old(h.pos) + h.tokenLen])) &&
+//@                 (old(h.pos) + h.tokenLen == h.len ==> h.state == h.stateEOF && h.tokenType == html5TypeTagNameOpen)
+//@   ensures  [C17] @type h.tokenType == html5TypeTagNameOpen || (h.tokenType == html5TypeTagClose && old(h.isClose) && h.state == h.stateData)
+//@   loop 1 invariant old(h.pos) <= pos && pos <= h.len && unchangedH(h)
+//@   loop 1 invariant [C17] forall k in [old(h.pos), pos): !tagNameEnd(h.s[k])
+//@   loop 1 decreases h.len - pos
+
+//@ func (*h5State).stateEndTagOpen
+//@   requires wfH(h) && midState(h)
+//@   modifies h.pos, h.state, h.tokenStart, h.tokenLen, h.tokenType, h.isClose
+//@   ensures  @mono old(h.pos) <= h.pos
+//@   rank     8
+//@   ensures  wfH(h)
+//@   ensures  !result ==> h.pos == old(h.pos) && h.state == old(h.state) && old(h.pos) >= h.len
+//@   ensures  [C17] @stream result ==> streamOK(h, old(h.pos)) && potQ(h) >= old(h.pos) + 1
+
+//@ func (*h5State).stateTagOpen
+//@   requires wfH(h) && midState(h)
+//@   modifies h.pos, h.state, h.tokenStart, h.tokenLen, h.tokenType, h.isClose
+//@   ensures  @mono old(h.pos) <= h.pos
+//@   rank     h.pos == 0 ? 11 : 9
+//@   ensures  wfH(h)
+//@   ensures  !result ==> h.pos >= h.len
+//@   ensures  [C17] @stream result ==> streamOK(h, old(h.pos) - 1) && potQ(h) >= old(h.pos) + 1
+
+// ---- data: text up to the first '<'
+//@ func (*h5State).stateData
+//@   requires wfM(h)
+//@   modifies h.pos, h.state, h.tokenStart, h.tokenLen, h.tokenType, h.isClose
+//@   ensures  @mono old(h.pos) <= h.pos
+//@   rank     (h.pos < h.len && h.s[h.pos] == '<') ? 10 : 1
+//@   ensures  wfH(h)
+//@   ensures  [C17] @stream result ==> streamOK(h, old(h.pos)) && potQ(h) >= old(h.pos) + 2
+//@   ensures  [C17] @text (old(h.pos) < h.len && h.s[old(h.pos)] != '<') ==> result && h.tokenType == html5TypeDataText && tokOff(h) == old(h.pos) &&
+//@                 h.tokenLen >= 1 && (forall k in [old(h.pos), old(h.pos) + h.tokenLen): h.s[k] != '<') &&
+//@                 ((h.state == h.stateEOF && old(h.pos) + h.tokenLen == h.len) ||
+//@                  (h.state == h.stateTagOpen && h.s[old(h.pos) + h.tokenLen] == '<' && h.pos == old(h.pos) + h.tokenLen + 1))
+//@   ensures  (old(h.pos) >= h.len ==> !result) && (!result ==> h.pos >= h.len)
+
+//@ func (*h5State).stateAttributeValueNoQuote
+//@   requires wfM(h)
+//@   modifies h.pos, h.state, h.tokenStart, h.tokenLen, h.tokenType
+//@   ensures  @mono old(h.pos) <= h.pos
+//@   rank     1
+//@   ensures  result && wfH(h) && h.isClose == old(h.isClose) && h.tokenType == html5TypeAttrValue
+//@   ensures  [C17] @stream streamOK(h, old(h.pos)) && tokOff(h) == old(h.pos) && potQ(h) >= old(h.pos) + 1
+//@   ensures  [C17] @span forall k in [old(h.pos), old(h.pos) + h.tokenLen): !(isWS(h.s[k]) || h.s[k] == '>')
+//@   ensures  [C17] @end (old(h.pos) + h.tokenLen < h.len ==> (isWS(h.s[old(h.pos) + h.tokenLen]) || h.s[old(h.pos) + h.tokenLen] == '>')) &&
+//@                 (old(h.pos) + h.tokenLen == h.len ==> h.state == h.stateEOF)
+//@   loop 1 invariant old(h.pos) <= pos && pos <= h.len && unchangedH(h)
+//@   loop 1 invariant [C17] forall k in [old(h.pos), pos): !(isWS(h.s[k]) || h.s[k] == '>')
+//@   loop 1 decreases h.len - pos
+
+//@ func (*h5State).stateBeforeAttributeValue
+//@   requires wfH(h) && midState(h)
+//@   modifies h.pos, h.state, h.tokenStart, h.tokenLen, h.tokenType
+//@   ensures  @mono old(h.pos) <= h.pos
+//@   rank     4
+//@   ensures  wfH(h) && h.isClose == old(h.isClose)
+//@   ensures  !result ==> h.pos == h.len && h.state == h.stateEOF
+//@   ensures  [C17] @stream result ==> streamOK(h, old(h.pos)) && potQ(h) >= old(h.pos) + 1 && h.tokenType == html5TypeAttrValue
+
+//@ func (*h5State).stateAfterAttributeName
+//@   requires wfH(h) && midState(h)
+//@   modifies h.pos, h.state, h.tokenStart, h.tokenLen, h.tokenType, h.isClose
+//@   ensures  @mono old(h.pos) <= h.pos
+//@   rank     6
+//@   ensures  wfH(h)
+//@   ensures  !result ==> h.pos == h.len
+//@   ensures  [C17] @stream result ==> streamOK(h, old(h.pos)) && potQ(h) >= old(h.pos) + 2
+
+// ---- attribute name: ends at the first white / '/' / '=' / '>' after its first byte
+//@ spec attrNameEnd(c int) bool = isWS(c) || c == '/' || c == '=' || c == '>'
+//@ func (*h5State).stateAttributeName
+//@   requires wfM(h) && h.pos < h.len
+//@   modifies h.pos, h.state, h.tokenStart, h.tokenLen, h.tokenType
+//@   ensures  @mono old(h.pos) <= h.pos
+//@   rank     1
+//@   ensures  result && wfH(h) && h.isClose == old(h.isClose) && h.tokenType == html5TypeAttrName
+//@   ensures  [C17] @stream streamOK(h, old(h.pos)) && tokOff(h) == old(h.pos) && h.tokenLen >= 1 && potQ(h) >= old(h.pos) + 2
+//@   ensures  [C17] @span forall k in [old(h.pos) + 1, old(h.pos) + h.tokenLen): !attrNameEnd(h.s[k])
+//@   ensures  [C17] @end (old(h.pos) + h.tokenLen < h.len ==> attrNameEnd(h.s[old(h.pos) + h.tokenLen])) &&
+//@                 (old(h.pos) + h.tokenLen == h.len ==> h.state == h.stateEOF)
+//@   ensures  [C15] @eq h.state == h.stateBeforeAttributeValue ==> h.s[h.pos - 1] == '='
+//@   loop 1 invariant old(h.pos) + 1 <= pos && pos <= h.len && unchangedH(h)
+//@   loop 1 invariant [C17] forall k in [old(h.pos) + 1, pos): !attrNameEnd(h.s[k])
+//@   loop 1 decreases h.len - pos
+
+//@ func (*h5State).stateBeforeAttributeName
+//@   requires wfH(h) && midState(h)
+//@   modifies h.pos, h.state, h.tokenStart, h.tokenLen, h.tokenType
+//@   ensures  @mono old(h.pos) <= h.pos
+//@   rank     4
+//@   ensures  wfH(h) && h.isClose == old(h.isClose)
+//@   ensures  old(h.pos) <= h.pos
+//@   ensures  !result ==> h.pos == h.len && h.state == old(h.state)
+//@   ensures  [C17] @stream result ==> streamOK(h, old(h.pos)) && potQ(h) >= old(h.pos) + 2
+//@   loop 1 invariant old(h.pos) <= h.pos && h.pos <= h.len && h.state == old(h.state) && h.isClose == old(h.isClose)
+//@   loop 1 decreases h.len - h.pos
+
+//@ func (*h5State).stateAfterAttributeValueQuotedState
+//@   requires wfH(h) && midState(h)
+//@   modifies h.pos, h.state, h.tokenStart, h.tokenLen, h.tokenType
+//@   ensures  @mono old(h.pos) <= h.pos
+//@   rank     7
+//@   ensures  wfH(h) && h.isClose == old(h.isClose)
+//@   ensures  !result ==> h.pos == h.len
+//@   ensures  [C17] @stream result ==> streamOK(h, old(h.pos)) && potQ(h) >= old(h.pos) + 2
+
+// ---- quoted value: from just after the opening quote (or offset 0 in a quote context)
+// to the first matching quote
+//@ func (*h5State).stateAttributeValueQuote
+//@   requires wfM(h) && (h.pos == 0 || h.pos < h.len)
+//@   modifies h.pos, h.state, h.tokenStart, h.tokenLen, h.tokenType
+//@   ensures  @mono old(h.pos) <= h.pos
+//@   rank     2
+//@   ensures  result && wfH(h) && h.isClose == old(h.isClose) && h.tokenType == html5TypeAttrValue
+//@   ensures  [C17] @first_terminator let b = old(h.pos) + (old(h.pos) > 0 ? 1 : 0) in
+//@                 tokOK(h) && tokOff(h) == b && (forall k in [b, b + h.tokenLen): h.s[k] != ch) &&
+//@                 (h.state == h.stateEOF || h.state == h.stateAfterAttributeValueQuotedState) &&
+//@                 (h.state == h.stateEOF ==> b + h.tokenLen == h.len) &&
+//@                 (h.state == h.stateAfterAttributeValueQuotedState ==> b + h.tokenLen < h.len && h.s[b + h.tokenLen] == ch && h.pos == b + h.tokenLen + 1)
+//@   ensures  [C17] @stream streamOK(h, old(h.pos)) && potQ(h) >= old(h.pos) + 1
+
+//@ func (*h5State).stateAttributeValueSingleQuote
+//@   requires wfM(h) && (h.pos == 0 || h.pos < h.len)
+//@   modifies h.pos, h.state, h.tokenStart, h.tokenLen, h.tokenType
+//@   ensures  @mono old(h.pos) <= h.pos
+//@   rank     3
+//@   ensures  result && wfH(h) && h.isClose == old(h.isClose) && h.tokenType == html5TypeAttrValue
+//@   ensures  [C17] @stream streamOK(h, old(h.pos)) && potQ(h) >= old(h.pos) + 1
+//@ func (*h5State).stateAttributeValueDoubleQuote
+//@   requires wfM(h) && (h.pos == 0 || h.pos < h.len)
+//@   modifies h.pos, h.state, h.tokenStart, h.tokenLen, h.tokenType
+//@   ensures  @mono old(h.pos) <= h.pos
+//@   rank     3
+//@   ensures  result && wfH(h) && h.isClose == old(h.isClose) && h.tokenType == html5TypeAttrValue
+//@   ensures  [C17] @stream streamOK(h, old(h.pos)) && potQ(h) >= old(h.pos) + 1
+//@ func (*h5State).stateAttributeValueBackQuote
+//@   requires wfM(h) && (h.pos == 0 || h.pos < h.len)
+//@   modifies h.pos, h.state, h.tokenStart, h.tokenLen, h.tokenType
+//@   ensures  @mono old(h.pos) <= h.pos
+//@   rank     3
+//@   ensures  result && wfH(h) && h.isClose == old(h.isClose) && h.tokenType == html5TypeAttrValue
+//@   ensures  [C17] @stream streamOK(h, old(h.pos)) && potQ(h) >= old(h.pos) + 1
+
+//@ func (*h5State).init
+//@   requires h.pos == 0 && h.tokenLen == 0 && !h.isClose
+//@   requires flags in {html5FlagsDataState, html5FlagsValueNoQuote, html5FlagsValueSingleQuote, html5FlagsValueDoubleQuote, html5FlagsValueBackQuote}
+//@   modifies h.s, h.len, h.state
+//@   ensures  wfH(h) && h.s == input && aliases(h.s, input) && h.pos == 0
+//@   ensures  [C13] @start h.state == (flags == html5FlagsDataState ? h.stateData : flags == html5FlagsValueNoQuote ? h.stateBeforeAttributeName :
+//@                 flags == html5FlagsValueSingleQuote ? h.stateAttributeValueSingleQuote :
+//@                 flags == html5FlagsValueDoubleQuote ? h.stateAttributeValueDoubleQuote : h.stateAttributeValueBackQuote)
+
+//@ func (*h5State).next
+//@   requires wfH(h)
+//@   modifies h.pos, h.state, h.tokenStart, h.tokenLen, h.tokenType, h.isClose
+//@   rank     12
+//@   ensures  wfH(h)
+//@   ensures  [C02 C17] @progress result ==> potQ(h) >= old(potQ(h)) + 1
+//@   ensures  [C17] @stream result ==> streamOK(h, old(lowB(h)))
+
+// =====================================================================================
+// XSS classifier
+// =====================================================================================
+
+//@ func isBlackTag
+//@   modifies nothing
+//@   loop 1 invariant 0 <= i
+//@   loop 1 decreases len(blackTags) - i
+
+//@ func isBlackAttr
+//@   modifies nothing
+//@   ensures  [C02] @range attributeTypeNone <= result && result <= attributeTypeAttrIndirect
+//@   loop 1 invariant -1 <= rangeindex && rangeindex < len(blackEvents)
+//@   loop 1 decreases len(blackEvents) - rangeindex
+//@   loop 2 invariant -1 <= rangeindex && rangeindex < len(blacks)
+//@   loop 2 decreases len(blacks) - rangeindex
+
+// ---- character reference decoder
+//@ func htmlDecodeByteAt
+//@   modifies nothing
+//@   ensures  [C19] @empty len(s) == 0 ==> result0 == -1 && result1 == 0
+//@   ensures  [C19] @consumed len(s) > 0 ==> 1 <= result1 && result1 <= len(s)
+//@   ensures  [C19] @cap len(s) > 0 ==> 0 <= result0 && result0 <= 0x1000FF
+//@   ensures  [C19] @literal len(s) > 0 && (s[0] != '&' || len(s) < 3 || s[1] != '#') ==> result1 == 1 && result0 == s[0]
+//@   loop 1 invariant 4 <= i && i <= length && length == len(s) && 0 <= val && val <= 0x1000FF
+//@   loop 1 decreases length - i
+//@   loop 2 invariant 3 <= i && i <= length && length == len(s) && 0 <= val && val <= 0x1000FF
+//@   loop 2 decreases length - i
+
+//@ func htmlEncodeStartsWith
+//@   modifies nothing
+//@   loop 1 invariant 0 <= pos && 0 <= length && pos + length == len(b)
+//@   loop 1 decreases length
+
+//@ func isBlackURL
+//@   modifies nothing
+//@   loop 1 invariant -1 <= rangeindex && rangeindex < 4
+//@   loop 1 decreases 4 - rangeindex
+
+//@ spec noLtEq(h *h5State) bool = forall k in [0, h.len): h.s[k] != '<' && h.s[k] != '='
+//@ func isXSS
+//@   requires flags in {html5FlagsDataState, html5FlagsValueNoQuote, html5FlagsValueSingleQuote, html5FlagsValueDoubleQuote, html5FlagsValueBackQuote}
+//@   modifies nothing
+//@   loop 1 invariant wfH(h5) && h5.s == input
+//@   loop 1 decreases h5.len + 1 - potQ(h5)
+
+//@ func IsXSS
+//@   modifies nothing
